@@ -178,7 +178,6 @@ def run_impl(case):
     finally:
         CEMIHandler.send_telegram = real_send
         Devices.process = _real_process
-    case["_handles"] = None
     return ";".join(out)
 
 
